@@ -62,13 +62,17 @@ def main():
             tier = sys.argv[i + 1]
         if a == "--checks":
             checks = sys.argv[i + 1].split(",")
-    src = "/tmp/mut/%s/out" % prop
+    rnd = ""
+    for i, a in enumerate(sys.argv):
+        if a == "--round":
+            rnd = sys.argv[i + 1]
+    src = "/tmp/mut%s/%s/out" % (rnd if rnd != "1" else "", prop)
     if not os.path.exists(os.path.join(src, "%s.patch" % letter)):
-        src = os.path.join(ROOT, "seeded", "%s-%s" % (prop, letter))
+        src = os.path.join(ROOT, "seeded", "%s-%s%s" % (prop, letter, rnd if rnd != "1" else ""))
         patch = os.path.join(src, "patch.diff")
     else:
         patch = os.path.join(src, "%s.patch" % letter)
-    name = "%s-%s" % (prop, letter)
+    name = "%s-%s%s" % (prop, letter, rnd if rnd != "1" else "")
     keep = os.path.join(ROOT, "seeded", name)
     meta = {"id": name, "breaks_property": prop, "source": "independent sub-agent given only the property text and a scratch worktree", "ran": []}
     if os.path.exists(os.path.join(keep, "meta.json")):
